@@ -19,7 +19,9 @@ TRUSTED = "the list model of insert/remove/move semantics written from the docum
 RULE = (
     "case = initial length 0-8 + op script (new cursor fwd/bwd/recursive, step, append, extend, insert_before/after "
     "of new and existing nodes incl. the cursor's current node and neighbours, remove, sort, move to another graph "
-    "and back; targets are selected relative to a cursor). All cursors are drained at the end. Non-trivial = at "
+    "and back; targets are selected relative to a cursor; insertions are spelled Graph.insert_* or Node.append/prepend, node "
+    "arguments as list/tuple/generator/iterator; a fourth cursor kind is reversed() of a backward recursive iterator; the whole "
+    "case optionally runs inside an active Journal). All cursors are drained at the end. Non-trivial = at "
     "least one edit touched a started cursor's current node or its immediate neighbour before that cursor was "
     "exhausted. distinct = distinct script JSON."
 )
